@@ -244,9 +244,9 @@ impl WCase {
     }
 }
 
-pub const WOP_NAMES: [&str; 14] = [
+pub const WOP_NAMES: [&str; 15] = [
     "put_X", "put_slice", "put_bytes", "put(Buf)", "chunk_mut+advance_mut", "wrap limit(n)", "wrap chain_mut(self, leaf)", "wrap chain_mut(leaf, self)", "set_limit",
-    "writer().write", "writer().write_all+flush", "wrap &mut", "wrap Box", "observe",
+    "writer().write", "writer().write_all+flush", "wrap &mut", "wrap Box", "observe", "inner target written through get_mut/first_mut/last_mut",
 ];
 
 type Bad = Vec<(&'static str, &'static str, String)>;
@@ -259,19 +259,21 @@ pub struct WFlags {
     pub limit_edge: bool,
 }
 pub struct WStats {
-    pub ops: [u64; 14],
+    pub ops: [u64; 15],
     pub putters: [u64; 38],
     pub leaf_kinds: [u64; 7],
     pub panics: u64,
     pub walks: u64,
     pub readbacks: u64,
     pub large_fills: u64,
+    pub inner_direct: u64,
+    pub dismantled: u64,
     pub classes: [u64; 4],
 }
 
 impl Default for WStats {
     fn default() -> Self {
-        WStats { ops: [0; 14], putters: [0; 38], leaf_kinds: [0; 7], panics: 0, walks: 0, readbacks: 0, large_fills: 0, classes: [0; 4] }
+        WStats { ops: [0; 15], putters: [0; 38], leaf_kinds: [0; 7], panics: 0, walks: 0, readbacks: 0, large_fills: 0, inner_direct: 0, dismantled: 0, classes: [0; 4] }
     }
 }
 
@@ -472,7 +474,7 @@ impl<'a> WInterp<'a> {
         if self.root.is_none() {
             return;
         }
-        let code = code % 13;
+        let code = code % 15;
         let code = if crate::bufeng::digest_mode() && matches!(code, 9 | 10) { 13 } else { code };
         self.st.ops[code as usize] += 1;
         let room = self.model.room();
@@ -557,7 +559,7 @@ impl<'a> WInterp<'a> {
                 let want = pick_n(a).min(room);
                 let data: Vec<u8> = (0..want).map(|i| 0x80 + (i % 64) as u8).collect();
                 let d2 = data.clone();
-                let via_ptr = b % 2 == 0;
+                let how = b % 5;
                 self.write_op(format!("chunk_mut + write {} + advance_mut", want), &data, move |r| {
                     // the documented manual pattern, repeated until everything is written
                     let mut left: &[u8] = &d2;
@@ -565,10 +567,28 @@ impl<'a> WInterp<'a> {
                         let ch: &mut UninitSlice = r.chunk_mut();
                         assert!(ch.len() > 0, "chunk_mut() empty although room is left");
                         let k = ch.len().min(left.len());
-                        if via_ptr {
-                            unsafe { std::ptr::copy_nonoverlapping(left.as_ptr(), ch.as_mut_ptr(), k) };
-                        } else {
-                            ch[..k].copy_from_slice(&left[..k]);
+                        // every way UninitSlice offers to initialise the bytes
+                        match how {
+                            0 => unsafe { std::ptr::copy_nonoverlapping(left.as_ptr(), ch.as_mut_ptr(), k) },
+                            1 => ch[..k].copy_from_slice(&left[..k]),
+                            2 => {
+                                for (i, &x) in left[..k].iter().enumerate() {
+                                    ch.write_byte(i, x);
+                                }
+                            }
+                            3 => {
+                                // two halves through the other range forms
+                                let h = k / 2;
+                                ch[..=h.saturating_sub(1).min(k - 1)].len();
+                                ch[0..h].copy_from_slice(&left[..h]);
+                                ch[h..][..k - h].copy_from_slice(&left[h..k]);
+                                assert_eq!(ch[h..k].len(), k - h);
+                            }
+                            _ => {
+                                let whole = &mut ch[..];
+                                assert!(whole.len() >= k);
+                                whole[..k].copy_from_slice(&left[..k]);
+                            }
                         }
                         unsafe { r.advance_mut(k) };
                         left = &left[k..];
@@ -693,6 +713,44 @@ impl<'a> WInterp<'a> {
                 self.model = WM::Wrap(Box::new(m));
                 self.depth += 1;
             }
+            14 => {
+                // reach into the outermost adapter and write one byte into an inner target directly; the adapter's own limit
+                // does not change, the inner target's room does (C12)
+                fn go(n: &mut NodeMut, m: &mut WM, v: u8, b: u32) -> Option<(String, bool)> {
+                    match (n, m) {
+                        (NodeMut::Boxed(bx), WM::Wrap(mi)) => go(&mut **bx, mi, v, b),
+                        (NodeMut::MutRef(r), WM::Wrap(mi)) => go(r.inner_mut(), mi, v, b),
+                        (NodeMut::Limit(l), WM::Limit(mi, _)) => {
+                            if mi.room() == 0 {
+                                return None;
+                            }
+                            let r = catch_unwind(AssertUnwindSafe(|| l.get_mut().put_u8(v)));
+                            mi.write(&[v]);
+                            Some(("Limit::get_mut().put_u8".to_string(), r.is_err()))
+                        }
+                        (NodeMut::Chain(c), WM::Chain(ma, mb)) => {
+                            let (mi, first) = if b % 2 == 0 { (ma, true) } else { (mb, false) };
+                            if mi.room() == 0 {
+                                return None;
+                            }
+                            let r = catch_unwind(AssertUnwindSafe(|| if first { c.first_mut().put_u8(v) } else { c.last_mut().put_u8(v) }));
+                            mi.write(&[v]);
+                            Some((format!("Chain::{}_mut().put_u8", if first { "first" } else { "last" }), r.is_err()))
+                        }
+                        _ => None,
+                    }
+                }
+                let v = (c as u8) | 1;
+                let root = self.root.as_mut().unwrap();
+                if let Some((what, panicked)) = go(root, &mut self.model, v, b) {
+                    wtr!(self, "{}({:#x})", what, v);
+                    self.st.inner_direct += 1;
+                    if panicked {
+                        self.v("C11", "unexpected-panic", format!("{} panicked although the inner target has room", what));
+                        self.ended = true;
+                    }
+                }
+            }
             _ => {}
         }
         let probe = !self.ended && (a % 3 == 0);
@@ -738,6 +796,30 @@ fn walk_w(n: &NodeMut, m: &WM, arena: &WArena, bad: &mut Bad, path: &mut String)
     }
 }
 
+fn dismantle_w(n: NodeMut, m: &WM, arena: &WArena, bad: &mut Bad, path: &mut String) {
+    match (n, m) {
+        (NodeMut::Limit(l), WM::Limit(mi, _)) => {
+            let k = path.len();
+            path.push_str(".limit.into_inner()");
+            dismantle_w(*l.into_inner(), mi, arena, bad, path);
+            path.truncate(k);
+        }
+        (NodeMut::Chain(c), WM::Chain(ma, mb)) => {
+            let (a, b) = c.into_inner();
+            let k = path.len();
+            path.push_str(".into_inner().0");
+            dismantle_w(*a, ma, arena, bad, path);
+            path.truncate(k);
+            path.push_str(".into_inner().1");
+            dismantle_w(*b, mb, arena, bad, path);
+            path.truncate(k);
+        }
+        (NodeMut::MutRef(r), WM::Wrap(mi)) => dismantle_w(r.into_inner(), mi, arena, bad, path),
+        (NodeMut::Boxed(b), WM::Wrap(mi)) => dismantle_w(*b, mi, arena, bad, path),
+        (leaf, m) => walk_w(&leaf, m, arena, bad, path),
+    }
+}
+
 fn check_fixed(left: usize, size: usize, content: &[u8], buf: &[u8], bad: &mut Bad, path: &str) {
     if left != size - content.len().min(size) {
         bad.push(("C11", "fixed-target-cursor", format!("at {}: {} bytes of room left, expected {}", path, left, size - content.len().min(size))));
@@ -767,7 +849,23 @@ pub fn run_wcase_dg(c: &WCase, st: &mut WStats, trace: bool) -> (Vec<(&'static s
         it.exec(op.0, op.1, op.2, op.3);
     }
     let root = it.root.take();
-    let _ = catch_unwind(AssertUnwindSafe(move || drop(root)));
+    if it.viols.is_empty() && !it.ended && root.is_some() {
+        // take the tree apart with into_inner() and compare every leaf with the model once more (C12: "into_inner() shows the
+        // inner buffers advanced by exactly the number of bytes that went through the adapter")
+        let mut bad: Bad = Vec::new();
+        let mut path = String::new();
+        let model = std::mem::replace(&mut it.model, WM::Leaf { fixed: Some(0), content: vec![], arena_ix: usize::MAX });
+        let r = catch_unwind(AssertUnwindSafe(|| dismantle_w(root.unwrap(), &model, &it.arena, &mut bad, &mut path)));
+        it.st.dismantled += 1;
+        if r.is_err() {
+            it.v("C12", "into_inner-panicked", "taking the adapter tree apart panicked".to_string());
+        }
+        for (p, o, d) in bad {
+            it.v(p, o, d);
+        }
+    } else {
+        let _ = catch_unwind(AssertUnwindSafe(move || drop(root)));
+    }
     let dg = it.dg ^ (it.viols.len() as u64).wrapping_mul(0x9E3779B97F4A7C15);
     (std::mem::take(&mut it.viols), it.flags, it.trace.take(), it.depth, dg)
 }
@@ -791,9 +889,9 @@ pub fn wspec_strategy() -> BoxedStrategy<WSpec> {
 }
 fn wop(prop: &str) -> BoxedStrategy<(u8, u32, u32, u64)> {
     let w: Vec<(u32, u8)> = if prop == "C12" {
-        vec![(3, 0), (3, 1), (1, 2), (2, 3), (2, 4), (4, 5), (2, 6), (2, 7), (4, 8), (5, 9), (3, 10), (1, 11), (1, 12)]
+        vec![(3, 0), (3, 1), (1, 2), (2, 3), (2, 4), (4, 5), (2, 6), (2, 7), (4, 8), (5, 9), (3, 10), (1, 11), (1, 12), (3, 14)]
     } else {
-        vec![(10, 0), (4, 1), (3, 2), (3, 3), (3, 4), (2, 5), (2, 6), (1, 7), (1, 8), (1, 9), (1, 10), (1, 11), (1, 12)]
+        vec![(10, 0), (4, 1), (3, 2), (3, 3), (3, 4), (2, 5), (2, 6), (1, 7), (1, 8), (1, 9), (1, 10), (1, 11), (1, 12), (1, 14)]
     };
     let ks: Vec<(u32, BoxedStrategy<u8>)> = w.into_iter().map(|(w, c)| (w, Just(c).boxed())).collect();
     (proptest::strategy::Union::new_weighted(ks), 0u32..4096, 0u32..4096, any::<u64>()).boxed()
@@ -842,7 +940,7 @@ impl WCol {
         for x in &viols {
             t.push(format!("!! {} [{}] at step {}: {}", x.0, x.1, x.3, x.2));
         }
-        let opname = viols.iter().find(|x| x.0 == v.0).and_then(|x| c.ops.get(x.3)).map(|o| WOP_NAMES[(o.0 % 13) as usize]).unwrap_or("");
+        let opname = viols.iter().find(|x| x.0 == v.0).and_then(|x| c.ops.get(x.3)).map(|o| WOP_NAMES[(o.0 % 15) as usize]).unwrap_or("");
         self.viols.push(json!({"property": v.0, "oracle": v.1, "detail": v.2, "op": opname, "found_by": how, "profile": util::profile_name(), "replay": c.to_json(), "trace": t}));
     }
 }
@@ -949,7 +1047,7 @@ pub fn main_bufmut(args: &Args) -> i32 {
     }
     let st = &col.st;
     let mut ops = serde_json::Map::new();
-    for (i, n) in WOP_NAMES.iter().enumerate().take(13) {
+    for (i, n) in WOP_NAMES.iter().enumerate() {
         ops.insert(n.to_string(), json!(st.ops[i]));
     }
     let mut kinds = serde_json::Map::new();
@@ -963,7 +1061,7 @@ pub fn main_bufmut(args: &Args) -> i32 {
     let out = json!({
         "engine": "bufmut", "property": prop, "profile": util::profile_name(), "seed": seed, "worker": worker,
         "evaluations": col.evals, "nontrivial_distinct_this_worker": col.nontriv.len(), "exhaustive": exhaustive,
-        "histogram": {"write_ops": ops, "target_leaf_kinds": kinds, "typed_writes": puts, "expected_panics(write does not fit)": st.panics, "structural_walks": st.walks, "read_backs": st.readbacks, "large_fills(>=128KiB)": st.large_fills,
+        "histogram": {"write_ops": ops, "target_leaf_kinds": kinds, "typed_writes": puts, "expected_panics(write does not fit)": st.panics, "structural_walks": st.walks, "read_backs": st.readbacks, "large_fills(>=128KiB)": st.large_fills, "direct_inner_writes": st.inner_direct, "trees_dismantled_with_into_inner": st.dismantled,
             "required_classes": {"write straddled a chunk end": st.classes[0], "growable target grew": st.classes[1], "write did not fit": st.classes[2], "write ended exactly at a chunk end / limit / capacity": st.classes[3]},
             "cases_ended_by_another_property's_violation": col.foreign},
         "samples": col.samples, "violations": col.viols,
